@@ -68,6 +68,7 @@ impl Check for C04 {
                     c04_case(ctx, &p, &data[..cut], &data[cut..]);
                 }
                 unencodable_header_case(ctx, "MAC_structure", &data, &data);
+                both_ivs_case(ctx, "MAC_structure", &data, &data);
             }
         }
     }
